@@ -646,35 +646,70 @@ Section World.
   Definition slot_of (c : cls) (n : ustring) : option slot :=
     find (fun s => ustr_eqb (sname s) n) (cslots c).
 
-  (* _check_property for one name; `setting` already holds the raw value if one was given *)
-  Definition check_property (c : cls) (s : slot) (allow interop : bool) (valid_refs : option (list (ustring * ustring)))
-             (setting : list (ustring * pval)) : result (list (ustring * pval) * bool) :=
+  (* _check_property for one name; `setting` already holds the raw value if one was given.
+     Three steps: the default (if nothing was given), clean of the value present, and -- v20 observables --
+     the check that object references name members of the enclosing container.                          *)
+
+  (* a default value goes through clean() like a given one; the clock reading is a datetime:
+     (setting', the value just put in is the cleaned clock reading) *)
+  Definition default_value (s : slot) (setting : list (ustring * pval)) : result (list (ustring * pval) * bool) :=
     let n := sname s in
-    (* a default value goes through clean() like a given one; the clock reading is a datetime *)
-    let with_default : result (list (ustring * pval) * bool) :=   (* (setting', value is the clock reading) *)
-        match alookup n setting with
-        | Some _ => Ok (setting, false)
-        | None =>
-          match sdef s with
-          | DNone => Ok (setting, false)
-          | DFixed => match skind s with
-                      | KFixed fv _ => Ok (aset n (PJ (JStr fv)) setting, false)
-                      | _ => Unmodelled
-                      end
-          | DNow => match skind s with
-                    | KTime p c => do r <- ts_clean_now (vr_year_pad vr) p c (e_now ev);
-                                   Ok (aset n (PTime (fst r) (snd r)) setting, true)
-                    | _ => Unmodelled
-                    end
-          | DUuid4 => match skind s with
-                      | KId prefix _ => Ok (aset n (PJ (JStr (prefix ++ e_uuid4 ev))) setting, false)
-                      | _ => Unmodelled
-                      end
-          | DConst j => Ok (aset n (PJ j) setting, false)
-          end
-        end in
-    do sd <- with_default;
-    let '(setting1, isnow) := sd in
+    match alookup n setting with
+    | Some _ => Ok (setting, false)
+    | None =>
+      match sdef s with
+      | DNone => Ok (setting, false)
+      | DFixed => match skind s with
+                  | KFixed fv _ => Ok (aset n (PJ (JStr fv)) setting, false)
+                  | _ => Unmodelled
+                  end
+      | DNow => match skind s with
+                | KTime p c => do r <- ts_clean_now (vr_year_pad vr) p c (e_now ev);
+                               Ok (aset n (PTime (fst r) (snd r)) setting, true)
+                | _ => Unmodelled
+                end
+      | DUuid4 => match skind s with
+                  | KId prefix _ => Ok (aset n (PJ (JStr (prefix ++ e_uuid4 ev))) setting, false)
+                  | _ => Unmodelled
+                  end
+      | DConst j => Ok (aset n (PJ j) setting, false)
+      end
+    end.
+
+  (* v20 _Observable._check_property / _check_ref *)
+  Definition ref_check (refs : list (ustring * ustring)) (allowed : list ustring) (r : pval) : result unit :=
+    match r with
+    | PJ (JStr key) =>
+      match alookup key refs with
+      | None => Err EInvalidObjRef
+      | Some t => match allowed with
+                  | [] => Ok tt
+                  | _ => if mem_ustr t allowed then Ok tt else Err EInvalidObjRef
+                  end
+      end
+    | _ => Unmodelled
+    end.
+
+  Fixpoint ref_check_all (refs : list (ustring * ustring)) (allowed : list ustring) (l : list pval) : result unit :=
+    match l with [] => Ok tt | x :: r => do _ <- ref_check refs allowed x; ref_check_all refs allowed r end.
+
+  Definition refs_ok (c : cls) (s : slot) (valid_refs : option (list (ustring * ustring))) (v : pval) : result unit :=
+    let n := sname s in
+    match cfamily c, cver c, valid_refs with
+    | FSco, V20, Some refs =>
+      match skind s, v with
+      | KObjRef allowed, _ => if ustr_prefix (rev (u "_ref")) (rev n) then ref_check refs allowed v else Ok tt
+      | KList (KObjRef allowed), PArr l =>
+        if ustr_prefix (rev (u "_refs")) (rev n) then ref_check_all refs allowed l else Ok tt
+      | _, _ => Ok tt
+      end
+    | _, _, _ => Ok tt
+    end.
+
+  (* prop.clean on the value present (a raw JSON value; an object wrapped by the class __init__ is kept) *)
+  Definition clean_present (c : cls) (s : slot) (allow interop : bool) (valid_refs : option (list (ustring * ustring)))
+             (setting1 : list (ustring * pval)) (isnow : bool) : result (list (ustring * pval) * bool) :=
+    let n := sname s in
     match alookup n setting1 with
     | None => Ok (setting1, false)
     | Some raw =>
@@ -682,42 +717,18 @@ Section World.
       match raw with
       | PJ j =>
         match clean_kind (skind s) allow interop j with
-        | Ok (v, hc) =>
-          (* v20 _Observable._check_property: object references must name members of the container *)
-          let refs_ok : result unit :=
-              match cfamily c, cver c, valid_refs with
-              | FSco, V20, Some refs =>
-                let chk (allowed : list ustring) (r : pval) : result unit :=
-                    match r with
-                    | PJ (JStr key) =>
-                      match alookup key refs with
-                      | None => Err EInvalidObjRef
-                      | Some t => match allowed with
-                                  | [] => Ok tt
-                                  | _ => if mem_ustr t allowed then Ok tt else Err EInvalidObjRef
-                                  end
-                      end
-                    | _ => Unmodelled
-                    end in
-                match skind s, v with
-                | KObjRef allowed, _ => if ustr_prefix (rev (u "_ref")) (rev n) then chk allowed v else Ok tt
-                | KList (KObjRef allowed), PArr l =>
-                  if ustr_prefix (rev (u "_refs")) (rev n) then
-                    (fix go (l : list pval) : result unit :=
-                       match l with [] => Ok tt | x :: r => do _ <- chk allowed x; go r end) l
-                  else Ok tt
-                | _, _ => Ok tt
-                end
-              | _, _, _ => Ok tt
-              end in
-          do _ <- refs_ok;
-          Ok (aset n v setting1, hc)
+        | Ok (v, hc) => do _ <- refs_ok c s valid_refs v; Ok (aset n v setting1, hc)
         | Err e => Err EInvalidValue
         | Unmodelled => Unmodelled
         end
       | _ => Ok (setting1, pval_has_custom raw)      (* already an object (wrapped by a class __init__) *)
       end
     end.
+
+  Definition check_property (c : cls) (s : slot) (allow interop : bool) (valid_refs : option (list (ustring * ustring)))
+             (setting : list (ustring * pval)) : result (list (ustring * pval) * bool) :=
+    do sd <- default_value s setting;
+    clean_present c s allow interop valid_refs (fst sd) (snd sd).
 
   Definition ext_is_toplevel (e : jvalue) : result bool :=
     match e with
